@@ -7,6 +7,8 @@ straddling buffer_size, 16384, 16393 and the 65535 window, 1..N concurrent H2 st
 scripted peers that fragment writes, pause reads on shared-state conditions and use small socket buffers.
 The oracle is in the driver and independent of any model: SHA-256/length of what each side received equals
 what the other side sent, and the message ended cleanly exactly when the sender ended it cleanly.
+HTTP/1.1 receivers also check the message boundaries (nothing between the end of a message and the next head:
+class stray-bytes) and every receiver the trailer section that was sent (class trailers).
 
 A scenario that disagrees is re-run 3 times with the same parameters and only counted when it fails every
 time (same class); otherwise it is recorded as inconclusive in the coverage, never as a violation.
@@ -92,8 +94,20 @@ def quick_scenarios(rng):
         scn("h1", "h1", 3, "head", 0, "head", 5000, seed=s()),
         scn("h2", rng.choice(["h1", "h2"]), 3, rng.choice(["none", "data"]), 100, rng.choice(["s204", "s304"]), 0, seed=s()),
         # trailers after a chunked body / after the last DATA frame, both directions
-        scn(rng.choice(["h1", "h2"]), "h1", 2, "TR", 20000, "chunkedtr", 30000, chunk=1000, seed=s()),
-        scn(rng.choice(["h1", "h2"]), "h2", 2, "TR", 20000, "datatr", 30000, chunk=1000, seed=s()),
+        # (all four pairs every time: the receivers record the trailer section — HTTP/1.1: the lines between the
+        # last-chunk line and the final CRLF, strictly field lines; HTTP/2: the header block with END_STREAM — and an
+        # HTTP/1.1 receiver checks that NOTHING follows the message before the next one starts: classes `trailers`,
+        # `stray-bytes`)
+        scn("h1", "h1", 2, "TR", 20000, "chunkedtr", 30000, chunk=1000, seed=s()),
+        scn("h2", "h1", 2, "TR", 20000, "chunkedtr", 30000, chunk=1000, seed=s()),
+        scn("h1", "h2", 2, "TR", 20000, "datatr", 30000, chunk=1000, seed=s()),
+        scn("h2", "h2", 2, "TR", 20000, "datatr", 30000, chunk=1000, seed=s()),
+        # consecutive uploads on ONE client connection whose sizes sum past the 65535-byte stream window while each
+        # stays below the half window at which the scripted receivers return stream credit: every new stream has to
+        # start with a full window of its own (HTTP/1.1 keep-alive client -> h2c: a fresh backend stream per request on
+        # the same stream slot; H2 client opening stream i+1 once stream i has been answered, stagger=3)
+        scn("h1", "h2", 3, rng.choice(["cl", "chunked"]), 30000, "datacl", 100, step=rng.choice([0, 1]), chunk=4096, seed=s()),
+        scn("h2", rng.choice(["h1", "h2"]), 3, "data", 30000, "cl", 30000, step=rng.choice([0, 1]), chunk=4096, stagger=3, seed=s()),
         # HTTP/1.1 pipelining: the whole sequence in one write, bodies included
         scn("h1", rng.choice(["h1", "h2"]), 3, rng.choice(["cl", "chunked"]), 5000, "cl" , 7000, chunk=1000, stagger=2, seed=s()),
         # 16 streams with a huge window: sozu offers its TLS layer more plaintext per write than rustls buffers (64 KiB)
@@ -199,7 +213,7 @@ def random_scenario(rng, big=False):
                cfrag=frag(), cpause=pause(), bfrag=frag(), bpause=pause(), sockbuf=sockbuf, win=win, abort=abort,
                seed=rng.randrange(1, 10 ** 6), bufsz=rng.choice([BUF, BUF, 32768]),
                sep_end=int(rng.random() < 0.25), mix=mix_, interim=103 if not abort and rng.random() < 0.1 else 0,
-               stagger=int(front == "h2" and back == "h2" and rng.random() < 0.2) or (2 if front == "h1" and not abort and resp_fr != "close" and rng.random() < 0.2 else 0), bset_delay=rng.choice([0, 0, 0, 30]) if back == "h2" else 0)
+               stagger=int(front == "h2" and back == "h2" and rng.random() < 0.2) or (3 if front == "h2" and not abort and not mix_ and rng.random() < 0.15 else 0) or (2 if front == "h1" and not abort and resp_fr != "close" and rng.random() < 0.2 else 0), bset_delay=rng.choice([0, 0, 0, 30]) if back == "h2" else 0)
 
 
 def scenarios(tier, rng):
